@@ -79,14 +79,27 @@ Ltac lia2 := unfold short in *; unfold two24, zlen, label, str in *; lia.
 Lemma zlen_nonneg {A} (l : list A) : 0 <= zlen l.
 Proof. unfold zlen. lia. Qed.
 
-Lemma encode_size_esz v : v <= two24 -> encode_size v = Ok (esz v).
+Lemma encode_size_esz v : v < two24 -> encode_size v = Ok (esz v).
 Proof.
-  intros H. unfold encode_size, esz. destruct (v <? 255); auto.
+  intros H. unfold encode_size, encode_size_gen, esz. destruct (v <? 255); auto.
+  destruct (Z.ltb_spec v two24); auto. lia2.
+Qed.
+Lemma encode_size_old_esz v : v <= two24 -> encode_size_old v = Ok (esz v).
+Proof.
+  intros H. unfold encode_size_old, encode_size_gen, esz. destruct (v <? 255); auto.
   destruct (Z.leb_spec v two24); auto. lia2.
 Qed.
-Lemma encode_str_enc s : zlen s <= two24 -> encode_str s = Ok (enc_str s).
+(* the fixed code rejects every length the three size bytes cannot hold *)
+Lemma encode_size_too_long v : two24 <= v -> encode_size v = Panic.
+Proof.
+  intros H. unfold encode_size, encode_size_gen.
+  destruct (Z.ltb_spec v 255); [lia2|]. destruct (Z.ltb_spec v two24); [lia2|]. reflexivity.
+Qed.
+Lemma encode_str_too_long s : two24 <= zlen s -> encode_str s = Panic.
+Proof. intros H. unfold encode_str. rewrite encode_size_too_long by auto. reflexivity. Qed.
+Lemma encode_str_enc s : zlen s < two24 -> encode_str s = Ok (enc_str s).
 Proof. intros H. unfold encode_str. rewrite encode_size_esz by auto. reflexivity. Qed.
-Lemma encode_label_enc l : zlen (fst l) <= two24 -> zlen (snd l) <= two24 -> encode_label l = Ok (enc_label l).
+Lemma encode_label_enc l : zlen (fst l) < two24 -> zlen (snd l) < two24 -> encode_label l = Ok (enc_label l).
 Proof. intros H1 H2. unfold encode_label. rewrite !encode_str_enc by auto. reflexivity. Qed.
 Lemma encode_labels_enc ls : all_short ls -> encode_labels ls = Ok (enc ls).
 Proof.
@@ -174,11 +187,12 @@ Proof.
     rewrite skip_app, IH by lia. f_equal. unfold zlen. simpl length. lia.
 Qed.
 
-(* the 2^24 boundary: sizeWhenEncoded accepts a length that encodeSize cannot write *)
+(* the 2^24 boundary in the code before the fix: sizeWhenEncoded accepted a length that
+   encodeSize cannot write *)
 Lemma len_2pow24_corrupts s r : zlen s = two24 ->
-  encode_str s = Ok (enc_str s) /\ decode_string (enc_str s ++ r) = Ok ([], s ++ r).
+  encode_str_old s = Ok (enc_str s) /\ decode_string (enc_str s ++ r) = Ok ([], s ++ r).
 Proof.
-  intros H. split; [apply encode_str_enc; lia2|].
+  intros H. split; [unfold encode_str_old; rewrite encode_size_old_esz by lia2; reflexivity|].
   unfold decode_string, enc_str. rewrite H, <- app_assoc. change (esz two24) with [255; 0; 0; 0].
   cbn [app decode_size Z.eqb Pos.eqb bind Z.mul Z.add]. unfold take.
   destruct (Z.ltb_spec (zlen (s ++ r)) 0); [pose proof (zlen_nonneg (s ++ r)); lia|]. reflexivity.
@@ -775,7 +789,7 @@ Proof.
   split; auto. split; auto. intros k. rewrite sl_get_lkp, sl_has_lkp. apply string_lookup; auto.
 Qed.
 
-Lemma len_2pow24_refuted : exists s e, zlen s = two24 /\ encode_str s = Ok e /\ decode_string e = Ok ([], s).
+Lemma len_2pow24_old_refuted : exists s e, zlen s = two24 /\ encode_str_old s = Ok e /\ decode_string e = Ok ([], s).
 Proof.
   exists (rep two24 120). exists (enc_str (rep two24 120)).
   assert (H : zlen (rep two24 120) = two24).
